@@ -25,7 +25,7 @@ DEFAULT_TTL = 3600
 class JobM:
     __slots__ = ("jobid", "serial", "channel", "priority", "payload", "deadline", "ttl",
                  "state", "holder", "result", "error", "info", "finished_at", "fin_ttl",
-                 "deliveries", "requeues", "ttl_uncertain", "ttl_observed", "drop", "waited")
+                 "deliveries", "requeues", "ttl_uncertain", "ttl_observed", "drop", "waited", "restored")
 
     def __init__(self, jobid, serial, channel, priority, payload, deadline, ttl):
         self.jobid = jobid
@@ -47,6 +47,7 @@ class JobM:
         self.ttl_uncertain = False
         self.ttl_observed = False
         self.drop = False
+        self.restored = False  # lived through a server restart
         self.waited = False
 
     @property
@@ -459,7 +460,7 @@ class QsModel:
         if j.state == "d":
             self._fail("R-notdone", f"{conn} was handed job {j.tag()} which already finished "
                        f"(error={j.error!r})", job=j.tag(), error=j.error)
-        if self.server_started_at is not None and j.deadline + self.OVERDUE_GRACE < self.server_started_at:
+        if self.server_started_at is not None and j.restored and j.deadline + self.OVERDUE_GRACE < self.server_started_at:
             self._fail("R-timeout", f"{conn} was handed job {j.tag()} whose deadline had passed "
                        f"{self.server_started_at - j.deadline:.0f} s before the restarted server came up "
                        f"(restored jobs are still subject to their timeout)", job=j.tag())
@@ -617,6 +618,7 @@ class QsModel:
         self._event()
         self.restarted = True
         for j in self.jobs.values():
+            j.restored = True
             if j.state == "h":
                 j.state = "q"
                 j.holder = None
